@@ -52,6 +52,7 @@ P01_FailKeeps(w, ev, w2, h, r) ==
   (Call(ev) /\ ev.fn \in TokenFns /\ ~IsOk(ev)) => (Bal(w2) = Bal(w) /\ {<<x[1], x[4]>> : x \in Carried(w2)} = {<<x[1], x[4]>> : x \in Carried(w)})
 
 \* C02
+\* a nominal supply call is not refused (gas refusals aside) and an accepted one changes balances by exactly the stated amount (permissive reference); a wipe removes exactly the frozen holding
 P02_Delta(w, ev, w2, h, r, rp) ==
   (Call(ev) /\ ev.fn \in SupplyFns) =>
      /\ (Pred(r) /\ r.ok) => (IsOk(ev) \/ GasRefusal(ev))                 \* a nominal call has the stated effect (it is not refused)
@@ -73,6 +74,7 @@ P02_NoOverdraft(w, ev, w2, h, r) ==
         Arg(ev,3).q <= ValAt(w, ev.caller, Arg(ev,1).h \o NBHex(Arg(ev,2).n))
 
 \* C03
+\* an accepted role-gated call's caller holds THAT role for THAT token (plus add-quantity for a create of more than one); role lists, pause and freeze state change only by the system contract (or the hand-over message); owner / reward / user-name change only for the owner / a DNS address
 P03_Authority(w, ev, w2, h, r) ==
   /\ (Call(ev) /\ IsOk(ev) /\ ev.fn \in RoleGated) =>
         /\ RoleFor(ev.fn) \in Range(RolesOf(w.acct[ev.caller], Arg(ev,1).h))
@@ -145,6 +147,7 @@ P04_Restores(w, ev, w2, h, r, r2) ==
        ~(Pred(r2) /\ ~r2.ok)      \* r2: the reference on Repause(w, ev.sh, WasFlagged(ev, h))
 
 \* C05
+\* SaveKeyValue changes nothing outside user keys: no protocol entry, no pause flag, no account-level field
 P05_Protected(w, ev, w2, h, r) ==
   (Call(ev) /\ ev.fn = "SaveKeyValue") => (Proto(w2) = Proto(w) /\ w2.paused = w.paused /\ w2.sysx = w.sysx /\ Fields(w2) = Fields(w))
 \* an accepted SaveKeyValue is a non-contract account writing to itself and leaves exactly the user keys the (permissive) reference computes; no other call touches user keys
@@ -209,6 +212,7 @@ P06_Underfunded(w, ev, w2, h, r) ==
   (Call(ev) /\ IsOk(ev) /\ Underfunded(ev)) => ev.gr + ev.fwd = 0
 
 \* C07
+\* a successful create returns and stores previous counter + 1, stores the entry under that nonce, and the nonce was never issued before for the token
 P07_ReturnedNonce(w, ev, w2, h, r) ==
   (Call(ev) /\ IsOk(ev) /\ ev.fn = "ESDTNFTCreate" /\ NArgs(ev) >= 2) =>
      LET t == Arg(ev,1).h
@@ -258,7 +262,7 @@ P08_OnlyUriAttr(w, ev, w2, h, r) ==
      (w.acct[a].esdt[k].meta # w2.acct[a].esdt[k].meta \/ w.acct[a].esdt[k].hm # w2.acct[a].esdt[k].hm) =>
         \/ (Call(ev) /\ IsOk(ev) /\ ev.fn \in {"ESDTNFTAddURI", "ESDTNFTUpdateAttributes"} /\ ev.caller = a /\ k = Arg(ev,1).h \o NBHex(Arg(ev,2).n))
         \/ (Call(ev) /\ IsOk(ev) /\ ev.fn \in TokenFns /\ a # ev.caller /\ w2.acct[a].esdt[k].val >= w.acct[a].esdt[k].val)   \* received a copy (also of quantity 0)
-\* (ra: the reference given ample gas - whether the provided gas sufficed is C06 / C16's question)
+\* an accepted add-URI / update-attributes is by a role holder on its own holding and changes exactly what the reference (given ample gas: whether the gas sufficed is C06 / C16's question) computes, nothing else
 P08_UriAttrExact(w, ev, w2, h, r, ra) ==
   (Call(ev) /\ IsOk(ev) /\ ev.fn \in {"ESDTNFTAddURI", "ESDTNFTUpdateAttributes"} /\ Pred(ra)) =>
      (ra.ok /\ w2.acct = ra.w.acct /\ w2.paused = w.paused /\ w2.msgs = w.msgs)
@@ -386,6 +390,7 @@ P11_ShapeVerdict(w, ev, w2, h, r) == (Call(ev) /\ ShapeBad(ev)) => ~IsOk(ev)
 P11_Alloc(w, ev, w2, h, r) == (Call(ev) /\ "allocok" \in DOMAIN ev.x) => ev.x.allocok
 
 \* C13
+\* the digests (return code, gas, return data, logs in order, output transfers, resulting storage) of the three executions - fresh function objects in another goroutine, undone probe on the live objects, the real step - are equal
 P13_Replicas(w, ev, w2, h, r) == (Call(ev) /\ "d1" \in DOMAIN ev.x) => (ev.x.d1 = ev.x.d2 /\ ev.x.d1 = ev.x.d3)
 \* input structure, argument slices (content, identity, guard bytes of the shared backing array) are unchanged after the call
 P13_InputIntact(w, ev, w2, h, r) == (Call(ev) /\ "intact" \in DOMAIN ev.x) => ev.x.intact
